@@ -282,7 +282,7 @@ func (p *Prog) MkAtom(cond ssa.Value, pol bool, ifi *ssa.If) Atom {
 				vx, vy = vy, vx
 				op = swapOp[op]
 			}
-			a.Op, a.X, a.Y = op, vx, vy
+			a.Op, a.X, a.Y = op, ResolveCell(vx), ResolveCell(vy)
 			// bool compared with constant: fold
 			if yc2, ok := b.Y.(*ssa.Const); ok && yc2.Value != nil && yc2.Value.Kind() == constant.Bool && (op == token.EQL || op == token.NEQ) {
 				truth := constant.BoolVal(yc2.Value)
@@ -294,14 +294,14 @@ func (p *Prog) MkAtom(cond ssa.Value, pol bool, ifi *ssa.If) Atom {
 				} else {
 					a.Text = "!" + x
 				}
-				a.Op, a.X, a.Y, a.Truth = token.ILLEGAL, vx, nil, truth
+				a.Op, a.X, a.Y, a.Truth = token.ILLEGAL, ResolveCell(vx), nil, truth
 				return a
 			}
 			a.Text = x + " " + op.String() + " " + y
 			return a
 		}
 	}
-	a.Op, a.X, a.Truth = token.ILLEGAL, c, pol
+	a.Op, a.X, a.Truth = token.ILLEGAL, ResolveCell(c), pol
 	if pol {
 		a.Text = p.Desc(c)
 	} else {
@@ -502,4 +502,25 @@ func NilCmp(cond ssa.Value) (ssa.Value, bool, bool) {
 	}
 	trueMeansNil := (b.Op == token.EQL) == pol
 	return v, trueMeansNil, true
+}
+
+// ResolveCell looks through a load of a local cell (closure-captured variable) that has exactly
+// one store: the loaded value is the stored value.
+func ResolveCell(v ssa.Value) ssa.Value {
+	for i := 0; i < 4; i++ {
+		u, ok := v.(*ssa.UnOp)
+		if !ok || u.Op != token.MUL {
+			return v
+		}
+		a, ok := u.X.(*ssa.Alloc)
+		if !ok {
+			return v
+		}
+		sv := singleStore(a)
+		if sv == nil {
+			return v
+		}
+		v = sv
+	}
+	return v
 }
